@@ -420,6 +420,62 @@ def make_ip6hist(nlines):
     return fn
 
 
+# ------------------------------------------------------------------ O7: the facts file (the mapping produced for the user) pairs every replaced original with its substitute
+FACT_LINES = ["inet6 fe80::5054:ff:fe12:224b/64 scope link", "inet6 FE80::5054:FF:FE12:224B/64 scope link", "link/ether 52:54:00:ab:cd:ef brd ff:ff:ff:ff:ff:ff",
+              "link/ether 52:54:00:AB:cd:EF brd ff:ff:ff:ff:ff:ff", "peer 100.100.100.100 and db7.example.org", "inet6 2001:db8::1/128 and 52:54:00:ab:cd:01"]
+FACT_KEYS = {"ip": "insights_client.obfuscated_ipv4", "ipv6": "insights_client.obfuscated_ipv6", "mac": "insights_client.obfuscated_mac",
+             "hostname": "insights_client.obfuscated_hostname", "keyword": "insights_client.obfuscated_keyword"}
+
+
+def facts_history(idxs):
+    """the lines FACT_LINES[i] for i in idxs go through one cleaner (each line a spec of its own), then the facts are generated"""
+    import json as _json
+    cl = K.make_cleaner(K.Cfg(ipv6=True, hostname=True, mac=True), keywords=["acmecorp"])
+    outs = []
+    for i in idxs:
+        o = cl.clean_content([FACT_LINES[i]])
+        outs.append(o[0] if o else "")
+    got = {}
+    real = CL.write_report
+    CL.write_report = lambda report, path, *a, **k: got.update(report=report, path=path)
+    try:
+        cl.generate_rhsm_facts()
+    finally:
+        CL.write_report = real
+    bad = []
+    if "report" not in got:
+        return ["no facts were written"]
+    for name, key in sorted(FACT_KEYS.items()):
+        ob = cl.obfuscate.get(name)
+        if not ob:
+            continue
+        try:
+            listed = _json.loads(got["report"].get(key, "[]"))
+        except ValueError:
+            bad.append("facts entry %s is not JSON" % key)
+            continue
+        pairs = [(e.get("original"), e.get("obfuscated")) for e in listed]
+        for e in ob.mapping():
+            if (e["original"], e["obfuscated"]) not in pairs:
+                bad.append("%s was replaced by %s (mapping()) but the facts produced for the user do not pair them (%s lists %r)" % (e["original"], e["obfuscated"], key, pairs))
+        for o_, s_ in pairs:
+            if not any(o_ == e["original"] for e in ob.mapping()):
+                bad.append("the facts list %s, which mapping() does not" % o_)
+    return bad
+
+
+def make_facts(n):
+    def fn(en):
+        K.HASH.reset()
+        k = 1 + en.choice("nlines", n)
+        idxs = [en.choice("line%d" % i, len(FACT_LINES)) for i in range(k)]
+        case = lambda mv: {"kind": "facts", "lines": idxs}  # noqa
+        en.note_sample(case)
+        bad = facts_history(idxs)
+        en.must_hold(not bad, "mac-mapping", case, detail=bad)
+    return fn
+
+
 def obligations(tier):
     thorough = tier == "thorough"
     enc = [IPM.IPv4._ip2db, IPM.IPv4.parse_line, IPM.IPv4.mapping, HNM.Hostname._hn2db, HNM.Hostname.parse_line, HNM.Hostname.mapping,
@@ -452,6 +508,10 @@ def obligations(tier):
                    desc="IPv6 addresses (4 concrete addresses in bare, /64 and /128 notation) over 1-2 lines of 1-2 addresses through one cleaner: one substitute per address whatever the notation, output = replacement by mapping(), nothing extra (finite exploration, no symbolic characters)",
                    bounds={"addresses": IP6_ADDRS, "notations": IP6_SUFFIX, "lines": "1-2", "addresses per line": "1-2"}, stubs=K.STUBS,
                    outside=["address forms the shipped pattern is documented not to match (e.g. ::1)"], encoded=[IPM.IPv6.parse_line, IPM.IPv6._ip2db, IPM.IPv6.mapping], budget_s=120, replay="iphist", check_sample=True),
+        Obligation("O7-facts", make_facts(3 if thorough else 2), ["mac-mapping"],
+                   desc="the facts produced for the user after 1-%d lines with IPv6, MAC (the same address in two letter cases), IPv4 and host tokens: every pair of mapping() is in the facts, nothing else (finite exploration)" % (3 if thorough else 2),
+                   bounds={"lines": "1-%d of %r, any order, repeats allowed" % (3 if thorough else 2, FACT_LINES)}, stubs=K.STUBS + ["write_report is captured instead of writing the facts file"],
+                   encoded=[CL.Cleaner.generate_rhsm_facts], budget_s=120, replay="machist", check_sample=True),
         Obligation("O5-hostname-history", make_hosthist(), ["hostname-consistent"], desc="host names of the system's domain over 1-2 lines through one cleaner",
                    bounds={"lines": "1-2", "tokens per line": "1-2", "hosts": "system fqdn, new symbolic 2-letter label, or an earlier one"}, stubs=K.STUBS, outside=outside,
                    encoded=enc[3:6] + enc[9:], budget_s=900 if thorough else 150, replay="hosthist", check_sample=True),
@@ -519,6 +579,8 @@ def _native(case):
                 bad.append("mapping() lists %s which never occurred" % e["original"])
     elif kind == "macline":
         bad = mac_line_history(case["n"], case["first_alone"])
+    elif kind == "facts":
+        bad = facts_history(case["lines"])
     elif kind == "ip6hist":
         bad = ip6_history([[tuple(t) for t in toks] for toks in case["spec"]])
     elif kind in ("iphist", "hosthist"):
